@@ -1,7 +1,7 @@
 // Adapter for specs/Mempool (C22, C26, C28): replays model paths on a real in-process regtest node: real signed transactions submitted
 // through ChainstateManager::ProcessTransaction, real blocks connected / invalidated / reorganised, the real CTxMemPool projected.
 //   mempool measure <ignored> <universe.json>          prints one line per universe transaction: {"fee":..,"vsize":..,"weight":..}
-//   mempool replay|strict <tests.ndjson> <universe.json> [fork]
+//   mempool replay|strict <tests.ndjson> <universe.json>
 // universe.json: {universe: [tx...], h0, basedt, base: [{v,h}...], opts: {minrelay, incr, expiry, maxrepl, maxcluster}} as printed
 // by the specification (module MU_*).
 #include <chainsim.h>
@@ -15,7 +15,6 @@ using namespace vfh;
 
 namespace {
 UniValue g_uni;
-std::unique_ptr<ChainSim> g_pristine;
 struct Base {
     std::vector<CTransactionRef> cbs;     // coinbase transaction of every base height (index = height)
     uint256 tip_hash; int h0; int64_t t0; int64_t basedt; int64_t mock0;
@@ -81,7 +80,7 @@ struct World {
 
     World()
     {
-        sim = g_pristine ? std::move(g_pristine) : MakeBaseSim();
+        sim = MakeBaseSim();
         mock = g_base.mock0;
         chain.push_back({g_base.tip_hash, g_base.h0, g_base.t0});
         for (size_t i = 0; i < g_uni["base"].size(); ++i) {
@@ -127,6 +126,7 @@ struct World {
                 else if (cls == "opret") spk = CScript() << OP_RETURN << std::vector<unsigned char>(20, (unsigned char)t);
                 else if (cls == "fail") spk = CScript() << OP_1 << OP_VERIFY << OP_0;
                 else if (cls == "nopx") spk = CScript() << OP_NOP4 << OP_TRUE;        // consensus-valid, rejected by the standard flags
+                else if (cls == "cltv") spk = CScript() << 1000 << OP_CHECKLOCKTIMEVERIFY << OP_DROP << OP_TRUE;   // spender has nLockTime 0
                 else throw std::runtime_error("bad script class");
                 m.vout.emplace_back(T["outs"][i]["v"].getInt<int64_t>(), spk);
                 out += T["outs"][i]["v"].getInt<int64_t>();
@@ -150,7 +150,9 @@ struct World {
     static std::string NormReason(std::string why)
     {
         if (why.rfind("mempool-script-verify-flag-failed", 0) == 0 || why.rfind("mandatory-script-verify-flag-failed", 0) == 0 ||
-            why.rfind("non-mandatory-script-verify-flag", 0) == 0 || why.rfind("block-script-verify-flag-failed", 0) == 0) return "script-failed";
+            why.rfind("non-mandatory-script-verify-flag", 0) == 0) return "script-failed";
+        // only ConsensusScriptChecks reports this for a loose transaction: the standard flags had accepted it
+        if (why.rfind("block-script-verify-flag-failed", 0) == 0) return "consensus-script-failed";
         if (why.rfind("insufficient fee", 0) == 0) return "insufficient fee";
         if (why.rfind("too many potential replacements", 0) == 0) return "too many potential replacements";
         return why;
@@ -287,7 +289,7 @@ struct World {
 
 int main(int argc, char** argv)
 {
-    if (argc < 4) { std::cerr << "usage: mempool measure|replay <tests> <universe.json> [fork]\n"; return 2; }
+    if (argc < 4) { std::cerr << "usage: mempool measure|replay|strict <tests> <universe.json>\n"; return 2; }
     { std::ifstream f(argv[3]); std::stringstream ss; ss << f.rdbuf(); if (!g_uni.read(ss.str())) { std::cerr << "bad universe\n"; return 2; } }
     const std::string mode = argv[1];
     if (mode == "measure") {
@@ -298,16 +300,36 @@ int main(int argc, char** argv)
         return 0;
     }
     if (mode == "replay" || mode == "strict") {
-        // "strict": every difference is a mismatch (used for the test-accept twin, whose result is a relation between two real calls)
-        const bool use_fork = argc > 4 && std::string(argv[4]) == "fork";
-        if (use_fork) g_pristine = MakeBaseSim();
-        const int rc = ReplayMain<World>(argv[2],
-            [&](const UniValue&) { return std::make_unique<World>(); },
-            [](World& w, const UniValue& a) { return w.Apply(a); },
-            [](World& w) { return w.Project(); },
-            mode == "strict" ? std::vector<std::string>{} : std::vector<std::string>{"obs", "@result"}, /*fork_per_test=*/use_fork);
-        g_pristine.reset();
-        return rc;
+        // Own replay loop (vfh::ReplayMain stops a test at its first deviation). "replay": every difference from the prediction is a
+        // *deviation* (classified per property by the driver with TLC); a test goes on after a deviation as long as the projected state
+        // still equals the predicted one (only the call's result differed), so that a tolerated difference does not hide the transitions
+        // behind it. "strict": every difference is a mismatch (used for the test-accept twin, a relation between two real calls).
+        const bool strict = mode == "strict";
+        InstallAbortHandlers();
+        ForEachLine(argv[2], [&](size_t n, const UniValue& t) {
+            R().cur_test = n; R().cur_step = 0; R().cur_action = UniValue::VNULL;
+            auto w = std::make_unique<World>();
+            const UniValue& st = t["steps"];
+            for (size_t i = 0; i < st.size(); ++i) {
+                R().cur_step = i; R().cur_action = st[i]["a"];
+                std::string why, rdiff, sdiff;
+                UniValue res, have;
+                try { res = w->Apply(st[i]["a"]); have = w->Project(); }
+                catch (const std::exception& e) { why = std::string("exception: ") + e.what(); }
+                ++R().steps;
+                if (!why.empty()) { R().Mismatch(st[i]["a"], why); break; }
+                if (st[i].exists("r") && !st[i]["r"].isNull()) rdiff = JsonDiff(st[i]["r"], res, "result");
+                if (st[i].exists("exp") && !st[i]["exp"].isNull()) sdiff = JsonDiff(st[i]["exp"], have, "state");
+                if (rdiff.empty() && sdiff.empty()) continue;
+                if (strict) { R().Mismatch(st[i]["a"], rdiff.empty() ? sdiff : rdiff + (res.exists("verdicts") ? " (" + res["verdicts"].get_str() + ")" : "")); break; }
+                have.pushKV("@result", res);
+                R().Deviation(st[i]["a"], sdiff.empty() ? rdiff : sdiff, have);
+                if (!sdiff.empty()) break;
+            }
+            ++R().tests;
+        });
+        R().Summary();
+        return 0;
     }
     return 2;
 }
